@@ -181,6 +181,19 @@ Qed.
 Lemma utf8_opt_attr att : utf8_opt att = true -> utf8_valid (match att with Some a => 46%N :: a | None => [] end) = true.
 Proof. destruct att as [a|]; [intros H; uv | reflexivity]. Qed.
 
+Lemma good_value_with rp bo nd ind : (forall base, good (rp base)) -> good (render_value_with rp bo nd ind).
+Proof.
+  intros Hrp. unfold render_value_with. apply good_bindc. intros block.
+  destruct ((Nat.eqb block 2 || nd) && bo).
+  - apply good_bind; [apply good_blank_inline_opt|]. intros b Hb. apply good_bind; [apply good_eol|]. intros e He.
+    apply good_bindc. intros blanks. apply good_bind.
+    { destruct (Nat.eqb blanks 1); [|apply good_ret; reflexivity]. apply good_bind; [apply good_eol|]. intros x Hx. apply good_ret. uv. }
+    intros e2 He2. apply good_bindc. intros extra. apply good_bind; [apply Hrp|]. intros s Hs.
+    apply good_ret. unfold cat. cbn [concat]. rewrite app_nil_r. uv.
+  - apply good_bind; [apply good_blank_inline_opt|]. intros b Hb. apply good_bindc. intros extra.
+    apply good_bind; [apply Hrp|]. intros s Hs. apply good_ret. uv.
+Qed.
+
 Theorem good_render_ast :
   (forall i, GPi i) /\ (forall e, GPe e) /\ (forall v, GPv v) /\ (forall p, GPp p) /\ (forall x, GPel x) /\ (forall a, GPa a) /\ (forall n, GPn n).
 Proof.
@@ -224,8 +237,7 @@ Proof.
     apply good_bind.
     { destruct (Nat.eqb k0 2); [|apply good_ret; reflexivity]. apply good_bind; [apply good_eol|]. intros e He. apply good_ret. uv. }
     intros pre Hpre. apply good_bind; [apply good_blank_opt|]. intros b1 Hb1. apply good_bind; [apply good_blank_opt|]. intros b2 Hb2.
-    apply good_bind; [apply good_blank_inline_opt|]. intros b3 Hb3. apply good_bindc. intros extra.
-    apply good_bind; [apply (IH Hp)|]. intros pp Hpp. apply good_bind; [apply good_eol|]. intros e2 He2.
+    apply good_bind; [apply good_value_with; intros base; apply (IH Hp)|]. intros pp Hpp. apply good_bind; [apply good_eol|]. intros e2 He2.
     apply good_ret. unfold cat. cbn [concat]. rewrite app_nil_r.
     assert (Hkey : utf8_valid (render_key k) = true) by (destruct k; exact Hk).
     assert (Hd : utf8_valid (if d then [42%N] else []) = true) by (destruct d; reflexivity).
@@ -251,15 +263,7 @@ Proof. intros H. destruct good_render_ast as (_ & _ & _ & HP & _). apply (HP p H
 (* ---- values, attributes, comments, entries ---- *)
 Lemma good_value ind p : utf8_pattern p = true -> good (render_value ind p).
 Proof.
-  intros Hp. unfold render_value. apply good_bindc. intros block.
-  destruct (Nat.eqb block 2 && first_byte_ok_for_block p).
-  - apply good_bind; [apply good_blank_inline_opt|]. intros b Hb. apply good_bind; [apply good_eol|]. intros e He.
-    apply good_bindc. intros blanks. apply good_bind.
-    { destruct (Nat.eqb blanks 1); [|apply good_ret; reflexivity]. apply good_bind; [apply good_eol|]. intros x Hx. apply good_ret. uv. }
-    intros e2 He2. apply good_bindc. intros extra. apply good_bind; [apply (good_pattern_inline _ p Hp)|]. intros s Hs.
-    apply good_ret. unfold cat. cbn [concat]. rewrite app_nil_r. uv.
-  - apply good_bind; [apply good_blank_inline_opt|]. intros b Hb. apply good_bindc. intros extra.
-    apply good_bind; [apply (good_pattern_inline _ p Hp)|]. intros s Hs. apply good_ret. uv.
+  intros Hp. unfold render_value. apply good_value_with. intros base. apply (good_pattern_inline _ p Hp).
 Qed.
 
 Lemma good_attributes attrs : forallb utf8_attribute attrs = true -> good (render_attributes attrs).
